@@ -70,7 +70,7 @@ func runHistory(r *vf.Run, calls []hcall, listing bool, capacity int, tag string
 }
 
 func C06(r *vf.Run) {
-	r.Rule = "generated emitter call histories (1-400 calls: instructions, data, labels, all 8 label-taking methods, forward/backward/multiple/missing references, duplicate-label attempts) with padding chosen so that branch displacements -129,-128,-127,-2,0,+1,+126,+127,+128 occur, plus programs spanning almost a whole bank with references around the +-32 KiB and +-64 KiB marks; six base-address classes; a shadow model predicts the Finalize outcome and every byte; a cell is (reference kinds, outcome, boundary distances hit, base class)"
+	r.Rule = "generated emitter call histories (1-400 calls: instructions, data, labels, all 8 label-taking methods, forward/backward/multiple/missing references, duplicate-label attempts) with padding chosen so that branch displacements -129,-128,-127,-2,0,+1,+126,+127,+128 occur, plus programs spanning almost a whole bank with references around the +-32 KiB and +-64 KiB marks; six base-address classes; target buffers exactly full, with 1-3 spare bytes, and roomy; a shadow model predicts the Finalize outcome and every byte; a cell is (reference kinds, outcome, boundary distances hit, base class)"
 	r.Assume = []string{"programs stay within one bank and SetBase is called at most once before the first emission (as quantified)"}
 	if !r.Phase("histories") {
 		return
@@ -90,6 +90,16 @@ func C06(r *vf.Run) {
 				capacity = 0x10100
 			} else {
 				calls, base, dist = genHistory(g, histOpts{maxCalls: 400, listing: listing, withRefs: true, withDup: true})
+			}
+			if g.Intn(3) != 0 {
+				// a target buffer exactly as large as the program (or with 1-3 spare bytes)
+				sz := newShadow(listing)
+				for _, c := range calls {
+					if sz.legal(c) {
+						sz.apply(c)
+					}
+				}
+				capacity = len(sz.code) + []int{0, 0, 0, 1, 2, 3}[g.Intn(6)]
 			}
 			e, sh, buf, ok := runHistory(r, calls, listing, capacity, "c06")
 			r.Eval(1)
